@@ -198,17 +198,41 @@ func (s *state) getBlock(name string) *parse.BlockNode {
 	return nil
 }
 
+// Method getParentBlock returns the definition of the named block that follows
+// the currently executing block in the chain of block scopes: the version of
+// the next ancestor.
 func (s *state) getParentBlock(name string) *parse.BlockNode {
-	rootFound := false
+	currentFound := false
 	for _, blocks := range s.blocks {
 		if block, ok := blocks[name]; ok {
-			if rootFound {
+			if currentFound {
 				return block
 			}
-			rootFound = true
+			currentFound = block == s.current
 		}
 	}
 	return nil
+}
+
+// Method renderBlock renders the given block into a string, as needed by the
+// block() and parent() functions. While it renders, the block is the current
+// block and the template it originates from is the current template.
+func (s *state) renderBlock(blk *parse.BlockNode) (string, error) {
+	defer func(out io.Writer, current *parse.BlockNode, name string) {
+		s.out = out
+		s.current = current
+		s.name = name
+	}(s.out, s.current, s.name)
+	buf := &bytes.Buffer{}
+	s.out = buf
+	s.current = blk
+	if blk.Origin != "" {
+		s.name = blk.Origin
+	}
+	if err := s.walk(blk.Body); err != nil {
+		return "", err
+	}
+	return buf.String(), nil
 }
 
 // Method walk is the main entry-point into template execution.
@@ -795,14 +819,7 @@ func (s *state) evalFunction(exp *parse.FuncExpr) (Value, error) {
 		}
 		name := s.current.Name
 		if blk := s.getParentBlock(name); blk != nil {
-			pout := s.out
-			buf := &bytes.Buffer{}
-			s.out = buf
-			if err := s.walk(blk.Body); err != nil {
-				return nil, err
-			}
-			s.out = pout
-			return buf.String(), nil
+			return s.renderBlock(blk)
 		}
 		return nil, errors.New("Unable to locate block \"" + name + "\"")
 	case "block":
@@ -816,15 +833,7 @@ func (s *state) evalFunction(exp *parse.FuncExpr) (Value, error) {
 		}
 		name := CoerceString(val)
 		if blk := s.getBlock(name); blk != nil {
-			pout := s.out
-			buf := &bytes.Buffer{}
-			s.out = buf
-			err = s.walk(blk.Body)
-			if err != nil {
-				return nil, err
-			}
-			s.out = pout
-			return buf.String(), nil
+			return s.renderBlock(blk)
 		}
 		return nil, errors.New("Unable to locate block \"" + name + "\"")
 	}
